@@ -874,6 +874,77 @@ def check_parse_classes(ctx, recipe, soup, exp):
     return True
 
 
+def ancestor_rule_failures(soup, sc):
+    """For a freshly parsed tree (any markup, malformed included): a string whose class is NavigableString or a container
+    class must have the class of its nearest ancestor that is a string container, else NavigableString."""
+    e = E()
+    c = e["cls"]
+    NS = e["el"].NavigableString
+    free = {c["NavigableString"]} | {c[v] for v in sc.values()}
+    bad = []
+    for n, path in paths(soup):
+        if isinstance(n, NS) and type(n) in free:
+            a = n.parent
+            while a is not None and a.name not in sc:
+                a = a.parent
+            want = sc[a.name] if a is not None else "NavigableString"
+            if type(n) is not c[want]:
+                bad.append((list(path), type(n).__name__, want))
+    return bad
+
+
+RULE_CONFIGS = ("default", "empty", "b-sub")  # container classes disjoint from the classes the builder assigns itself
+
+
+def check_ancestor_rule(ctx, recipe, soup, sc, stream):
+    if recipe["config"] not in RULE_CONFIGS:
+        return
+    ctx.case(None)
+    ctx.count("ancestor-rule:docs")
+    bad = ancestor_rule_failures(soup, sc)
+    if bad:
+        ctx.count("ancestor-rule:differs")
+        if sum(1 for v in ctx.violations if v["stream"] == stream + "-ancestor-rule") < 4:
+            ctx.violation("a parsed string does not have the class of its nearest string-container ancestor",
+                          case={"op": "ancestor-rule", "recipe": recipe}, expected=[b[2] for b in bad],
+                          observed=[b[:2] for b in bad], stream=stream + "-ancestor-rule")
+
+
+MAL_TOKENS = ["<p>", "</p>", "<b>", "</b>", "<i a='1'>", "</i>", "<script>", "</script>", "<style>", "</style>", "<template>",
+              "</template>", "<rt>", "</rt>", "<rp>", "</rp>", "<ruby>", "</ruby>", "<!--", "-->", "<![CDATA[", "]]>",
+              "<!DOCTYPE x>", "<?pi", "?>", ">", "<", "&amp;", "&#x41;", "&lt;", "<p", "</", "<![if x]>", "<![endif]>", " ", "\n",
+              "t", "u ", " \xa0", "<div>", "</div>", "<textarea>", "</textarea>", "<SCRIPT>", "</Script >", "<b/>", "<script/>"]
+
+
+def stream_malformed(ctx, batch, n_docs):
+    e = E()
+    skipped = 0
+    for di in range(n_docs):
+        r = ctx.rng("malformed", di)
+        cfg = r.choice(RULE_CONFIGS + ("default", "default+"))
+        markup = "".join(r.choice(MAL_TOKENS) + (str(k) if r.random() < 0.4 else "") for k in range(r.randint(2, 18)))
+        recipe = {"markup": markup, "config": cfg, "ops": []}
+        try:
+            soup, sc = build(recipe)
+        except RecursionError:
+            raise
+        except Exception as ex:
+            # the parser refusing the document is C06's business, not a text-extraction outcome
+            ctx.count("malformed:rejected-" + type(ex).__name__)
+            skipped += 1
+            continue
+        ctx.count("malformed:docs")
+        check_ancestor_rule(ctx, recipe, soup, sc, "malformed")
+        nops = r.choice((0, 0, 2, 5))
+        for k in range(nops):
+            op = gen_op(r, soup, 5000 + k)
+            if apply_op(soup, sc, op):
+                recipe["ops"].append(list(op))
+        if len(all_nodes(soup)) > 120:
+            continue
+        check_tree(ctx, batch, recipe, soup, sc, "malformed", random_plan(r, 2), 3_000_000 + di)
+
+
 def stream_random(ctx, batch, n_trees):
     e = E()
     live_names = list(e["live_containers"])
@@ -891,6 +962,7 @@ def stream_random(ctx, batch, n_trees):
         ctx.count("tree:config-" + cfg)
         if markup:
             check_parse_classes(ctx, {"markup": markup, "config": cfg, "ops": []}, soup, exp)
+            check_ancestor_rule(ctx, {"markup": markup, "config": cfg, "ops": []}, soup, sc, "random-trees")
         nops = 0 if (markup and style < 0.45) else r.choice((1, 2, 3, 5, 8, 12))
         if not markup:
             nops = r.choice((4, 8, 12, 16))
@@ -1077,6 +1149,7 @@ def run(ctx: Ctx):
     stream_strip(ctx)
     stream_string_container(ctx)
     stream_positions(ctx, batch)
+    stream_malformed(ctx, batch, ctx.n(600, 6000))
     stream_random(ctx, batch, ctx.n(1500, 15000))
     batch.flush()
     if ctx.lean is not None and not ctx.lean.ok:
@@ -1133,6 +1206,13 @@ def replay(path):
         print("implementation:", got)
         print("property demands:", want)
         return 0 if got == want else 1
+    if c.get("op") == "ancestor-rule":
+        soup, sc = build(c["recipe"] | {"ops": []})
+        bad = ancestor_rule_failures(soup, sc)
+        print("markup:", ascii(c["recipe"]["markup"]), "config:", c["recipe"]["config"])
+        for path, got, want in bad:
+            print(f"string at path {path}: implementation class {got}, property demands {want}")
+        return 1 if bad else 0
     if c.get("op") == "interesting":
         e = E()
         kwargs, sc = config_containers(c["config"])
